@@ -66,8 +66,13 @@ FLOATM = re.compile(r"^(?:core|std)::f64::<impl f64>::(\w+)$")
 def float_method(eng, st, meth, args):
     """f64 methods on concrete doubles and on the exact-integer subset (engine.IFl)"""
     import math
-    from .engine import FloatV, IFl
+    from .engine import FloatV, IFl, QuotF
     a = args[0]
+    if isinstance(a, QuotF):
+        if meth != "trunc":
+            return None
+        q, _r = eng.tdiv(st, a.a, a.b)
+        return [(True, eng.mk_float(st, q, "trunc of a quotient"))]
     if isinstance(a, FloatV):
         x = a.v
         fin = x == x and abs(x) != float("inf")
